@@ -181,11 +181,15 @@ impl<'a> StateMachine<'a> {
                 || self.handle_grep_line()?
                 || self.should_skip_line()
                 || self.emit_line_unchanged()?;
+            #[cfg(dandavison_delta_verif)]
+            crate::verif_hooks::machine::observe(self, false);
         }
 
         self.handle_pending_line_with_diff_name()?;
         self.painter.paint_buffered_minus_and_plus_lines();
         self.painter.emit()?;
+        #[cfg(dandavison_delta_verif)]
+        crate::verif_hooks::machine::observe(self, true);
         Ok(())
     }
 
